@@ -1,7 +1,7 @@
 (* Run/Dispatch.v — one entry point for the extracted runner: kind + arguments -> rendered result.
    All kind-specific glue is here so the OCaml driver stays generic.  The only effectful thing in
    the runner is [oracle], a question/answer call-back answered by the Go standard library. *)
-From FDO Require Export Run.Sexp Rv.RvImpl Cose.Sign1 Kex.Crypter Kex.Kdf.
+From FDO Require Export Run.Sexp Rv.RvImpl Cose.Sign1 Kex.Crypter Kex.Kdf Svi.Chunk Cbor.RoundTripCheck.
 Local Open Scope N_scope.
 
 Definition unhexnum (b : bytes) : option N :=
@@ -53,6 +53,13 @@ Section Dispatch.
       match args with
       | [t; v] => match parse_ty t, parse_val v with
                   | Some t', Some v' => Some (render_outcome (fun b => s "b:"%bs ++ hex b) (enc enc_fuel t' v'))
+                  | _, _ => Some bad_args end
+      | _ => Some bad_args
+      end
+    else if bytes_eqb kind (s "cbor.wfb"%bs) then
+      match args with
+      | [t; v] => match parse_ty t, parse_val v with
+                  | Some t', Some v' => Some (if wfb O_der 400 0 t' v' then s "T"%bs else s "F"%bs)
                   | _, _ => Some bad_args end
       | _ => Some bad_args
       end
@@ -236,6 +243,64 @@ Section Dispatch.
       end
     else None.
 
+  (* ---- service-info chunking ---- *)
+  Fixpoint args_bytes (l : list arg) : option (list bytes) :=
+    match l with [] => Some [] | AB b :: r => option_map (cons b) (args_bytes r) | _ => None end.
+  Fixpoint args_z (l : list arg) : option (list Z) :=
+    match l with [] => Some [] | AZ z :: r => option_map (cons z) (args_z r) | _ => None end.
+
+  Definition render_cres (r : cres) : bytes :=
+    match r with
+    | CKV k v => s "(K b:"%bs ++ hex k ++ s " b:"%bs ++ hex v ++ s ")"%bs
+    | CTooSmall => s "S"%bs | CEOF => s "E"%bs | CErr => s "X"%bs
+    end.
+
+  Fixpoint run_sizes (st : cstate) (sizes : list Z) : bytes :=
+    match sizes with
+    | [] => []
+    | z :: r =>
+      let (res, st') := read_chunk st z in
+      sp ++ render_cres res ++ match res with CEOF | CErr => [] | _ => run_sizes st' r end
+    end.
+
+  Fixpoint run_rounds (n : nat) (st : cstate) (mtu : Z) : bytes :=
+    match n with
+    | O => s " more-rounds"%bs
+    | S n' =>
+      match round st mtu with
+      | RFail => s " fail"%bs
+      | ROutOfFuel => s " oof"%bs
+      | RRound kvs more st' =>
+        s " (R"%bs ++ flat_map (fun kv => sp ++ render_cres (CKV (fst kv) (snd kv))) kvs
+        ++ (if more then s " more)"%bs else s " last)"%bs)
+        ++ match kvs, more, cs_cur st', cs_queue st' with
+           | [], false, None, [] => []
+           | _, _, _, _ => run_rounds n' st' mtu
+           end
+      end
+    end.
+
+  Definition run_chunk (kind : bytes) (args : list arg) : option bytes :=
+    if bytes_eqb kind (s "chunk.run"%bs) then
+      match args with
+      | [AL items; AL sizes] =>
+        match args_bytes items, args_z sizes with
+        | Some q, Some zs => Some (s "ok"%bs ++ run_sizes (mkcs None q) zs)
+        | _, _ => Some bad_args
+        end
+      | _ => Some bad_args
+      end
+    else if bytes_eqb kind (s "chunk.rounds"%bs) then
+      match args with
+      | [AL items; AZ mtu] =>
+        match args_bytes items with
+        | Some q => Some (s "ok"%bs ++ run_rounds (S (S (length q + N.to_nat (N.of_nat (length (concat q)))))) (mkcs None q) mtu)
+        | None => Some bad_args
+        end
+      | _ => Some bad_args
+      end
+    else None.
+
   Definition dispatch (kind : bytes) (args : list arg) : bytes :=
     match run_cbor kind args with
     | Some r => r
@@ -251,7 +316,11 @@ Section Dispatch.
           | None =>
             match run_kex2 kind args with
             | Some r => r
-            | None => s "unknown-kind"%bs
+            | None =>
+              match run_chunk kind args with
+              | Some r => r
+              | None => s "unknown-kind"%bs
+              end
             end
           end
         end
